@@ -19,6 +19,39 @@ fn main() {
         }
         std::process::exit(0);
     }
+    if args[1] == "token-sample" {
+        // generator health of the token decoder: accept rate of the reference recogniser on random bytes
+        use proptest::prelude::RngCore;
+        let n: usize = args.get(2).and_then(|s| s.parse().ok()).unwrap_or(1000);
+        let len: usize = args.get(3).and_then(|s| s.parse().ok()).unwrap_or(64);
+        let mut rng = engine::rng_from_seed(7);
+        let (mut acc, mut shown) = (0, 0);
+        for _ in 0..n {
+            let mut d = vec![0u8; len];
+            rng.fill_bytes(&mut d);
+            let t = h2a::fuzzsupport::token_text(&d);
+            let res = h2a::refparse::parse(&t);
+            let ok = res.is_ok();
+            if let Err(e) = &res {
+                if std::env::var("TOKEN_ERRS").is_ok() {
+                    if let h2a::refparse::RefErr::Syntax(i, _) = e {
+                        println!("ERR {:?} LINE {:?}", e, t.split('\n').nth(*i).unwrap_or(""));
+                    } else {
+                        println!("ERR {:?}", e);
+                    }
+                }
+            }
+            if ok {
+                acc += 1;
+            }
+            if shown < 6 && (ok || shown < 3) {
+                shown += 1;
+                println!("--- accepted={} ---\n{}", ok, t);
+            }
+        }
+        println!("accepted {} of {}", acc, n);
+        std::process::exit(0);
+    }
     let id = args[1].clone();
     let mut tier = match std::env::var("VERIF_TIER").ok().as_deref() {
         Some("thorough") => Tier::Thorough,
@@ -117,17 +150,18 @@ fn main() {
     std::process::exit(code);
 }
 
-fn fuzz_target_of(id: &str) -> Option<&'static str> {
+fn fuzz_targets_of(id: &str) -> Vec<&'static str> {
     match id {
-        "C02" | "C03" | "C06" | "C16" => Some("fz_text"),
-        "C05" | "C11" | "C13" => Some("fz_machine"),
-        _ => None,
+        "C02" | "C03" | "C06" | "C16" => vec!["fz_text", "fz_tokens"],
+        "C05" | "C11" | "C13" => vec!["fz_machine"],
+        _ => vec![],
     }
 }
 
 fn fuzz_findings(target: &str, data: &[u8]) -> Vec<h2a::fuzzsupport::Finding> {
     match target {
         "fz_text" => h2a::fuzzsupport::text_findings(data),
+        "fz_tokens" => h2a::fuzzsupport::token_findings(data),
         "fz_machine" => h2a::fuzzsupport::machine_findings(data),
         _ => vec![],
     }
@@ -142,7 +176,12 @@ fn replay_fuzz_artifact(ctx: &Ctx) -> Option<engine::Evidence> {
         Ok(_) => return None,
         Err(_) => raw,
     };
-    let target = fuzz_target_of(&ctx.id)?;
+    let targets = fuzz_targets_of(&ctx.id);
+    // the artifact's file name (or the path recorded in the replay JSON) names the target that produced it
+    let named = |p: &str| targets.iter().copied().find(|t| p.contains(&format!("fuzz-{}-", t)));
+    let target = named(&path.display().to_string())
+        .or_else(|| serde_json::from_slice::<serde_json::Value>(&std::fs::read(path).ok()?).ok().and_then(|d| named(d["case"]["artifact"].as_str()?)))
+        .or(targets.first().copied())?;
     let mut ev = engine::Evidence::new("exploration", "replay of a fuzz artifact through the deterministic oracles");
     ev.evaluations = 1;
     for (p, s, d) in fuzz_findings(target, &artifact) {
@@ -155,15 +194,17 @@ fn replay_fuzz_artifact(ctx: &Ctx) -> Option<engine::Evidence> {
 
 /// thorough tier: fold the coverage-guided campaign (run by fuzz.sh just before) into the evidence
 fn merge_fuzz_stats(ctx: &Ctx, ev: &mut engine::Evidence) {
-    let target = match fuzz_target_of(&ctx.id) {
-        Some(t) => t,
-        None => return,
-    };
+    for target in fuzz_targets_of(&ctx.id) {
+        merge_fuzz_stats_of(ctx, ev, target);
+    }
+}
+
+fn merge_fuzz_stats_of(ctx: &Ctx, ev: &mut engine::Evidence, target: &str) {
     let path = format!("/verif/target/fuzz-stats-{}.json", target);
     let doc: serde_json::Value = match std::fs::read_to_string(&path).ok().and_then(|t| serde_json::from_str(&t).ok()) {
         Some(d) => d,
         None => {
-            ev.extra.insert("fuzz_campaign".into(), serde_json::json!("not run"));
+            ev.extra.insert(format!("fuzz_campaign_{}", target), serde_json::json!("not run"));
             return;
         }
     };
